@@ -115,7 +115,7 @@ func (b *Buffer) ReadLine() ([]byte, error) {
 		return nil, err
 	}
 	if idx < 2 {
-		return nil, EmptyLine
+		return nil, BadLine
 	}
 	if buf[idx-1] != CRByte {
 		return nil, ErrInvalidResp
